@@ -79,7 +79,7 @@ BOUND = {
 REQUIRED_CLASSES = [
     'sense_clockwise', 'sense_anticlockwise', 'ratio_subharmonic', 'ratio_one', 'ratio_harmonic',
     'slit_spans_tdc', 'slit_negative_begin', 'opening_before_pulse', 'opening_straddles_pulse_time',
-    'phase_multi_turn', 'unit_rad', 'unit_kHz', 'unit_per_min', 'dtype_int64', 'ratio_mixed_dtypes_accepted', 'ratio_mixed_dtypes_rejected',
+    'phase_multi_turn', 'unit_rad', 'unit_kHz', 'unit_per_min', 'dtype_int64', 'ratio_mixed_dtypes_accepted', 'ratio_mixed_dtypes_rejected', 'ratio_mixed_dtypes_and_units',
     'direct_ok', 'twin_from_same_variables_ok', 'replaced_frequency_ok', 'fdc_npulses_1_ok', 'fdc_npulses_ge2_run',
     'ratio_rejected_ValueError', 'ratio_near_integer_accepted',
     'overlap_plain_rejected', 'begin_gt_end_rejected', 'overlap_tdc_case_run',
@@ -123,6 +123,14 @@ MIXED_DTYPE_RATIOS = [
     (14.0, 14, 'accept'), (3.5, 14, 'accept'), (42.0, 14, 'accept'), (14.5, 14, 'reject'), (7.25, 14, 'reject'), (14.0, 4, 'reject'), (21.0, 14, 'reject'),
 ]
 
+MIXED_UNIT_DTYPE_RATIOS = [
+    (14.0, 'Hz', 'float64', 840, '1/min', 'int64', 'accept'), (14.0, 'Hz', 'float64', 850, '1/min', 'int64', 'reject'), (14.0, 'Hz', 'float64', 420, '1/min', 'int32', 'accept'),
+    (14, 'Hz', 'int64', 840, '1/min', 'int64', 'accept'), (14, 'Hz', 'int64', 850, '1/min', 'int64', 'reject'), (14, 'Hz', 'int64', 1700, '1/min', 'int64', 'reject'),
+    (0.014, 'kHz', 'float64', 14, 'Hz', 'int64', 'accept'), (0.028, 'kHz', 'float64', 14, 'Hz', 'int64', 'accept'), (0.021, 'kHz', 'float64', 14, 'Hz', 'int64', 'reject'),
+    (840, '1/min', 'int64', 14.0, 'Hz', 'float64', 'accept'), (850, '1/min', 'int64', 14.0, 'Hz', 'float64', 'reject'), (840, '1/min', 'int64', 14, 'Hz', 'int64', 'accept'),
+    (850, '1/min', 'int64', 14, 'Hz', 'int64', 'reject'), (1, 'kHz', 'int64', 500, 'Hz', 'int64', 'accept'), (1, 'kHz', 'int64', 300, 'Hz', 'int64', 'reject'),
+    (14.0, 'Hz', 'float64', 1, 'kHz', 'int64', 'reject'), (2000.0, 'Hz', 'float64', 1, 'kHz', 'int64', 'accept'),
+]
 # overlap family (degrees); expect = ValueError at construction
 OVERLAPS = {
     'plain': [(0, 100), (60, 140)],
@@ -195,6 +203,10 @@ def cases(tier):
                 continue
             for sense in SENSES:
                 out.append({'kind': 'ratio_dtype', 'freq': f, 'pulse': pz, 'expect': expect, 'sense': sense, 'freq_dtype': fdt, 'pulse_dtype': pdt})
+    # ... and in different units as well: whole numbers per minute next to Hz / kHz (values given in the unit named)
+    for f, funit, fdt, pz, punit, pdt, expect in MIXED_UNIT_DTYPE_RATIOS:
+        for sense in SENSES:
+            out.append({'kind': 'ratio_dtype', 'freq': f, 'pulse': pz, 'expect': expect, 'sense': sense, 'freq_dtype': fdt, 'pulse_dtype': pdt, 'funit': funit, 'punit': punit})
     for fam in OVERLAPS:
         for aunit, dtype in (('deg', 'float64'), ('rad', 'float64'), ('deg', 'int64')):
             for order in ('listed', 'reversed'):
@@ -459,11 +471,9 @@ def check_config(rec, case, slits_deg, *, beam, phase, amode, freq_value, funit,
             rec.cls('fdc_mixed_frequency_units_run')
         try:
             cc = Chopper.from_disk_chopper(ch, pf, npulses)
-        except sc.UnitError:
-            if funit != punit:
-                rec.cls('fdc_mixed_frequency_units_UnitError')
-                continue
-            raise
+        except sc.UnitError as e:
+            rec.viol('Chopper.from_disk_chopper', 'raises_unit_error', f'chopper in {funit}, pulse in {punit}: {str(e)[:80]}', **sub)
+            continue
         except ValueError as e:
             rec.viol('DiskChopper._source_phase_factor', 'in_phase_ratio_rejected', f'from_disk_chopper: {str(e)[:60]}', **sub)
             continue
@@ -543,11 +553,6 @@ def run_ratio(case, rec):
             res = call()
         except ValueError:
             rec.cls('ratio_rejected_ValueError')
-        except sc.UnitError:
-            if site == 'Chopper.from_disk_chopper' and case['funit'] != case['punit']:
-                rec.cls('fdc_mixed_frequency_units_UnitError')
-            else:
-                raise
         else:
             rec.observe(repr(res)[:200])
             rec.viol(site, 'out_of_phase_ratio_accepted', f'ratio {n}/{d}*(1{case["delta"]:+.0e}) is neither an integer nor an inverse integer to 1e-8 but no ValueError was raised',
@@ -558,17 +563,20 @@ def run_ratio(case, rec):
 def run_ratio_dtype(case, rec):
     f, pz = case['sense'] * case['freq'], case['pulse']
     fdt, pdt = case['freq_dtype'], case['pulse_dtype']
+    funit, punit = case.get('funit', 'Hz'), case.get('punit', 'Hz')
     slits = SLITSETS['two_at_tdc']
     rec.cls('ratio_mixed_dtypes')
+    if funit != punit:
+        rec.cls('ratio_mixed_dtypes_and_units')
     if case['expect'] == 'accept':
-        quot = abs(f) / pz
+        quot = abs(f) * float(UNIT_HZ[funit]) / (pz * float(UNIT_HZ[punit]))
         n_rep = round(max(quot, 1))
-        if check_config(rec, case, slits, beam=37, phase=15, amode='deg', freq_value=f, funit='Hz', pulse_value=pz, punit='Hz', dtype='float64',
-                        n_rep=n_rep, npulses_list=[1, 2], freq_dtype=fdt, pulse_dtype=pdt):
+        if check_config(rec, case, slits, beam=37, phase=15, amode='deg', freq_value=f, funit=funit, pulse_value=pz, punit=punit, dtype='float64',
+                        n_rep=n_rep, npulses_list=[1, 2] if funit == punit else [1], freq_dtype=fdt, pulse_dtype=pdt):
             rec.cls('ratio_mixed_dtypes_accepted')
         return
-    ch = build(slits, beam=37, phase=15, amode='deg', freq_value=f, funit='Hz', freq_dtype=fdt)
-    pf = sc.scalar(int(pz) if pdt.startswith('int') else float(pz), unit='Hz', dtype=pdt)
+    ch = build(slits, beam=37, phase=15, amode='deg', freq_value=f, funit=funit, freq_dtype=fdt)
+    pf = sc.scalar(int(pz) if pdt.startswith('int') else float(pz), unit=punit, dtype=pdt)
     calls = {
         'DiskChopper.time_offset_open': lambda: ch.time_offset_open(pulse_frequency=pf),
         'DiskChopper.time_offset_close': lambda: ch.time_offset_close(pulse_frequency=pf),
